@@ -181,8 +181,12 @@ def extra_checks(ck, tier, rng):
     """welltyped_no_crash, on the implementation: every generated program that the extracted type checker
     (Spec/BstTyping.check, model function 2) accepts must not raise a foreign Python exception"""
     from collections import Counter
-    cases = [(st, arg) for (st, fn, arg) in _CASES if st not in ('exhaustive', 'exhaustive4')]
-    verdicts = ck.model.run([(2, [arg[0]]) for (_, arg) in cases], ck.rundir)
+    wanted = ('pinned', 'styles', 'random', 'random_exec', 'order_probe', 'malformed') if tier == 'quick' else None
+    cases = [(st, arg) for (st, fn, arg) in _CASES if (st in wanted if wanted else st not in ('exhaustive', 'exhaustive4'))]
+    import re
+    def entry_types(bib):
+        return sorted(set(t.lower() for t in re.findall(r'@\s*([^\s{(@,=]+)\s*[{(]', bib)) - {'comment', 'string', 'preamble'})
+    verdicts = ck.model.run([(2, norm([arg[0], entry_types(S(arg[2]))])) for (_, arg) in cases], ck.rundir)
     acc = [(st, arg) for (st, arg), v in zip(cases, verdicts) if v[:1] == [1]]
     outs = [p[0] if isinstance(p, tuple) else p for p in run_impl({1: impl_run}, [(1, arg) for (_, arg) in acc])]
     per = Counter(); accd = Counter(); kinds = Counter()
@@ -212,7 +216,7 @@ def canon(fn, out):
 
 # ----------------------------------------------------------------------------------------
 RULE = ('exhaustive: every straight-line program of at most 2 tokens, and of 3 tokens whose first token is an operand or a built-in '
-        'without operands (quick: a seeded 15% sample of the 3-token ones), over a 54-token pool (4 integers, 7 strings incl. braces, a '
+        'without operands (quick: a seeded 10% sample of the 3-token ones), over a 54-token pool (4 integers, 7 strings incl. braces, a '
         'special character, a name list and white space, a function literal, quoted and unquoted global int/str variables, a quoted '
         'built-in, all 37 built-ins), run by EXECUTE -- well-typed and ill-typed alike; every operand triple x {substring$ if$ format.name$}; '
         'every value x target x reader of := ; per-entry programs of <= 2 tokens; every kind of value (int, str, missing field, field, '
@@ -223,7 +227,7 @@ RULE = ('exhaustive: every straight-line program of at most 2 tokens, and of 3 t
         'malformed: token-level delete / duplicate / replace / swap of valid programs, wrong command arities, commands out of order. '
         'distinct = distinct cases; non-trivial = the run succeeded and left something on the stack, in the output or in a variable. '
         'extra check: every generated program the extracted type checker accepts must not raise a foreign exception in the implementation.')
-EXHAUSTIVE = {'quick': 'all EXECUTE programs of <= 2 tokens over a 54-token pool (operands + all 37 built-ins); all operand triples for substring$/if$/format.name$; all := combinations; all value kinds x all built-ins of arity <= 2 in entry context (3-token programs: seeded 15% sample, arity-3 kind combinations: 20%)',
+EXHAUSTIVE = {'quick': 'all EXECUTE programs of <= 2 tokens over a 54-token pool (operands + all 37 built-ins); all operand triples for substring$/if$/format.name$; all := combinations; all value kinds x all built-ins of arity <= 2 in entry context (3-token programs: seeded 10% sample, arity-3 kind combinations: 20%)',
               'thorough': 'all EXECUTE programs of <= 3 tokens (first token an operand or operand-free built-in) over the 54-token pool, a seeded 2% sample of length 4; all operand triples; all := combinations; all value kinds x all built-ins in entry context'}
 TRUSTED_BASE = ['modelled (not verified) code: pybtex/bibtex/interpreter.py, pybtex/bibtex/builtins.py (all of both), the string primitives of pybtex/bibtex/utils.py through Model/BibtexStr.v and Model/Wrap.v',
                 'handed to the model as measured data, not modelled here: what READ finds (bib parsing, citation expansion, crossref field inheritance: C01/C05/C14), names.format_name(name, format) (C11), the charwidths table',
@@ -241,3 +245,16 @@ def nontrivial(fn, arg, out):
     return out[0] == 0 and bool(out[1][0] or out[1][1] or out[1][3] or out[1][8])
 
 from props.c03_oracle import oracle
+
+# ----------------------------------------------------------------------------------------
+# known finding C03-F2: INTEGERS / STRINGS assign interpreter.vars[name] directly, without the "already declared" check
+# of ENTRY / FUNCTION (and of BibTeX): re-declaring a variable, a function or even a built-in is accepted silently
+def _sig_redeclare(kind, fn, arg, detail):
+    import re
+    return kind == 'oracle' and isinstance(detail, str) and bool(
+        re.match(r'(INTEGERS|STRINGS) re-declaring the name \S+ must be reported as a BibTeX error; the run succeeded$', detail))
+KNOWN_SIGNATURES = {'C03-F2': _sig_redeclare}
+
+def replay_known(finding):
+    arg = norm(finding['pinned']['arg'])
+    return oracle(1, arg, impl_run(arg))
